@@ -12,7 +12,7 @@ TL = "<naive::time::NaiveTime as traits::Timelike>::"
 def run(chk, tier):
     P = Prog("default")
     chk.configs.add("default")
-    for r in (r_boxes, r_delegates, r_with, r_hms, r_offset_copy, r_sub, r_operators, r_datetime_core, r_hour12, r_value_map, r_absint):
+    for r in (r_boxes, r_delegates, r_with, r_hms, r_offset_copy, r_sub, r_operators, r_datetime_core, r_hour12, r_opt_wrappers, r_value_map, r_absint):
         chk.guarded(r, P, tier)
     chk.assume("the leap-second stepping rules of overflowing_add_signed / signed_duration_since (which branch applies to which operands) are numerical and not decided")
     return {
@@ -404,3 +404,8 @@ def r_value_map(chk, P, tier):
             if isinstance(c, int) and not isinstance(c, bool) and c not in known:
                 extra.setdefault(c, fn)
     chk.expect(not extra, "piece boundaries", "constants %s occur in the folded functions but are not boundaries of the evaluated domain (extend the domain)" % (sorted(extra.items())[:6],), loc=P.loc(NT + "::overflowing_add_signed"))
+
+
+def r_opt_wrappers(chk, P, tier=None):
+    import rules
+    rules.opt_wrappers(chk, P, ("naive::time::",), floor=5)
